@@ -369,7 +369,7 @@ func genWhite(r *hv.Rand) {
 		{kind: 'A'},
 	}, true)
 
-	n := hv.Scale(500, 6000)
+	n := hv.Scale(420, 1500)
 	for k := 0; k < n; k++ {
 		server := r.Bool()
 		parity := byte(1)
@@ -384,6 +384,7 @@ func genWhite(r *hv.Rand) {
 		type st struct {
 			open   bool
 			nextNo uint32
+			maxNo  uint32 // highest data frame number sent to this instance
 			fin    bool
 		}
 		live := map[tkey]*st{}
@@ -489,9 +490,15 @@ func genWhite(r *hv.Rand) {
 					ok2 := tkey{!k.rel, k.id}
 					no2 := uint32(1)
 					if o, ok := live[ok2]; ok {
+						if ok2.rel && o.fin && o.nextNo > o.maxNo {
+							continue
+						}
 						no2 = o.nextNo
 						if ok2.rel {
 							o.nextNo++
+							if no2 > o.maxNo {
+								o.maxNo = no2
+							}
 						}
 					}
 					sc = append(sc, mop{kind: 'F', id: k.id, flags: relFlag(!k.rel), no: no2, data: payload(ok2, gens[ok2], no2)})
@@ -499,12 +506,20 @@ func genWhite(r *hv.Rand) {
 				}
 				if k.rel {
 					switch c2 := r.Intn(100); {
-					case c2 < 12:
+					case c2 < 12 && !s.fin:
 						no = s.nextNo + uint32(1+r.Intn(3)) // ahead: buffered, delivered when the gap closes
 					case c2 < 20 && s.nextNo > 1:
 						no = 1 + uint32(r.Intn(int(s.nextNo-1))) // duplicate of an old frame
+					case s.fin && s.nextNo > s.maxNo:
+						if s.nextNo <= 1 {
+							continue // a legitimate peer sends nothing beyond its FIN
+						}
+						no = 1 + uint32(r.Intn(int(s.nextNo-1)))
 					default:
 						s.nextNo++
+					}
+					if no > s.maxNo {
+						s.maxNo = no
 					}
 				} else {
 					s.nextNo++
@@ -529,9 +544,11 @@ func genWhite(r *hv.Rand) {
 			case c < 97: // FIN for a reliable tube, in order
 				if k, ok := pickLive(); ok && k.rel {
 					s := live[k]
-					sc = append(sc, mop{kind: 'F', id: k.id, flags: fREL | fFIN | fACK, ackno: 1, no: s.nextNo})
-					if s.open && !s.fin {
-						s.fin = true
+					// the FIN carries the number after the last data frame (it may arrive before some of them)
+					sc = append(sc, mop{kind: 'F', id: k.id, flags: fREL | fFIN | fACK, ackno: 1, no: s.maxNo + 1})
+					s.fin = true
+					if s.nextNo <= s.maxNo+1 {
+						// frames up to maxNo may still be missing; keep sending them in order later
 					}
 				}
 			default:
